@@ -98,7 +98,7 @@ PROPS = {
         vx_units=['server', 'vfs'], kx=[],
         design_ref='DESIGN.md section 5, C12',
         not_covered=[
-            'Vfs::init option algebra (ends in `for fs in superblocks.iter().flatten()`: iterator adapters) and the second-INIT refusal in the same function',
+            'Vfs::destroy and backends mounted AFTER init (Vfs::mount_with_id_mapping initialises them; mount path not covered)',
             'PassthroughFs::init / OverlayFs::init (start with import() = syscalls; switches are AtomicBool stores on &self)',
             'that the negotiated version IS stored (obligation to act); only that nothing but the client\'s (major, minor) may be stored',
             'fields of the INIT reply the property does not constrain (max_background, congestion_threshold, time_gran, minor)',
